@@ -41,6 +41,7 @@ var c01Scope = []string{
 	`^imagemeta\.(DecodeTiff|DecodeCR2|DecodeHeif|DecodePng|DecodeJPEG|Decode|DecodeCR3|PreviewCR3)$`,
 	`^jpeg\.`,
 	`^isobmff\.`,
+	`^(xmp|xmp/xmpns|preview)\.`,
 }
 
 var hashAndDecodeRoots = append(append([]string{}, decodeRoots...), `^imagehash\.(NewPHash64|NewPHash256|NewPHash64Alt|NewPHash256Alt|NewAHash)$`)
